@@ -92,6 +92,11 @@ CouponHashSet<A>* CouponHashSet<A>::newSet(const void* bytes, size_t len, const 
   if (lgArrInts < hll_constants::LG_INIT_SET_SIZE) {
     lgArrInts = HllUtil<>::computeLgArrInts(SET, couponCount, lgK);
   }
+  // a hash set is promoted to HLL instead of growing beyond 2^(lgK - 3) slots or 3/4 full
+  if (lgArrInts > lgK - 3 || static_cast<uint64_t>(hll_constants::RESIZE_DENOM) * couponCount
+                             > (static_cast<uint64_t>(hll_constants::RESIZE_NUMER) << lgArrInts)) {
+    throw std::invalid_argument("Array size or coupon count in SET sketch image exceeds the limit for lgConfigK");
+  }
   // Don't set couponCount in sketch here;
   // we'll set later if updatable, and increment with updates if compact
   const uint32_t couponsInArray = (compactFlag ? couponCount : (1 << lgArrInts));
@@ -159,6 +164,11 @@ CouponHashSet<A>* CouponHashSet<A>::newSet(std::istream& is, const A& allocator)
     throw std::runtime_error("error reading from std::istream");
   if (lgArrInts < hll_constants::LG_INIT_SET_SIZE) {
     lgArrInts = HllUtil<>::computeLgArrInts(SET, couponCount, lgK);
+  }
+  // a hash set is promoted to HLL instead of growing beyond 2^(lgK - 3) slots or 3/4 full
+  if (lgArrInts > lgK - 3 || static_cast<uint64_t>(hll_constants::RESIZE_DENOM) * couponCount
+                             > (static_cast<uint64_t>(hll_constants::RESIZE_NUMER) << lgArrInts)) {
+    throw std::invalid_argument("Array size or coupon count in SET sketch image exceeds the limit for lgConfigK");
   }
 
   ChsAlloc chsa(allocator);
